@@ -63,7 +63,9 @@ LEVEL_TEXT = ("proof for the linearised problem, exploration beyond it: Lean 4 t
               "unknowns change sign), and on the std_error_ellipse regenerated from network.h the y flip keeps both "
               "semi-axes and maps the bearing to pi - alpha (mod pi). "
               "PointID::operator< / == / != REGENERATED from pointid.cpp on every run (tools/gen/c07_pointid.py) is proved to be a strict "
-              "total order on all byte strings; whether the revision keeps an observation does not depend on which end is "
+              "total order on all byte strings; PointID::init REGENERATED statement by statement (tools/gen/c07_pointid_init.py: the "
+              "white-space loop body, the trailing-blank test, IsInteger / >> long / << long tests, early returns) is proved EQUAL to the "
+              "hand model for every byte string (C07_pointid_init_source_tie); whether the revision keeps an observation does not depend on which end is "
               "written first (C07_swap_preserves_active_view over C14's requirement table, regenerated from local_revision.cpp by "
               "this check as well: the whole revision and the active view commute with exchanging the ends of distances, slope "
               "distances, height and coordinate differences); the degrees clause is proved "
@@ -84,6 +86,8 @@ TRUSTED = ["tools/gen/c07_meta.py: the re-expressions themselves (what counts as
            "tools/gen/c09_stats.py (translator of std_error_ellipse into Gen/StatsGen.lean, validated by C09's correspondence)",
            "tools/gen/c07_pointid.py (translator of PointID::operator<, ==, != into Gen/PointIdCmp.lean; validated by the pid / "
            "pid3 / pmap operations of the input stream)",
+           "tools/gen/c07_pointid_init.py (statement/expression translator of PointID::init into Gen/PointIdInit.lean; the three "
+           "iostream idioms and the iterator declarations are pinned statements; validated by the pid operations of the input stream)",
            "tools/gen/c14_revision.py (translator of LocalRevision's requirement table, validated by C14's correspondence) and "
            "C14's model of the revision (Model/Revise.lean)",
            "Trig R instance of Lemmas/C07Cofactor.lean: atan2 y x = Complex.arg (x + y i) (same meaning as C09's)",
